@@ -11,7 +11,7 @@
 From ClapModel Require Import Base.Bytes Base.Machine Base.Utf8 Lex.OsStrExtModel.
 From ClapModel Require Import Parse.Cmd Parse.Build Parse.Valid Parse.Matcher Parse.Errors Parse.Validator Parse.Parser.
 From ClapModel Require Import ParseProofs.Actions ParseProofs.ActionsLoop ParseProofs.ActionsTokens ParseProofs.ActionsTop ParseProofs.ActionsWide ParseProofs.ActionsWideTop ParseProofs.ActionsGraph.
-From ClapModel Require ParseProofs.Spelling ParseProofs.Sources ParseProofs.Dispatch ParseProofs.Globals ParseProofs.Chain.
+From ClapModel Require ParseProofs.Spelling ParseProofs.Sources ParseProofs.Dispatch ParseProofs.Globals ParseProofs.Chain ParseProofs.UnparseTree.
 From Coq Require Import ZArith.
 From RecordUpdate Require Import RecordSet.
 Import RecordSetNotations.
@@ -230,6 +230,23 @@ Proof.
   - constructor; [|exact IH]. split; [exact HA|exact (woccurrences_scanned c pre os HS)].
 Qed.
 
+(** * At [parse_top], for trees without global arguments (the globals merge is then the identity) *)
+Theorem chain_levels_top c0 bin toks lv m :
+  let c := build_self (with_bin c0 bin) in
+  is_set s_no_binary_name c0 = false -> is_set s_ignore_errors c = false ->
+  UnparseTree.no_globals (build_recursive (S (S (depth c))) (with_bin c0 bin)) = true ->
+  cline c toks lv -> parse_top c0 (bin :: toks) = OOk m ->
+  Forall2 level_rel lv (Globals.levels m) /\ Globals.chain m = map (fun p => c_name (fst p)) (tl lv).
+Proof.
+  intros c NB IE NG HL HP. rewrite (parse_top_unfold c0 bin toks NB) in HP. rewrite UnparseTree.do_parse_unfold in HP.
+  destruct (negb (valid (with_bin c0 bin))); [discriminate|]. fold c in HP.
+  destruct (get_matches_with (S (S (depth c))) c toks ps_new) as [st|e st|x] eqn:EG.
+  - rewrite (UnparseTree.finish_no_globals (with_bin c0 bin) st NG) in HP. inversion HP; subst m.
+    exact (chain_level_forms c toks lv HL _ st EG).
+  - unfold UnparseTree.finish_outcome in HP. fold c in HP. rewrite IE in HP. discriminate.
+  - unfold UnparseTree.finish_outcome in HP. destruct x; discriminate.
+Qed.
+
 (** * Non-vacuity: a two-level line, closed forms at both levels *)
 Module ChainExamples.
   Import WideExamples.
@@ -241,7 +258,7 @@ Module ChainExamples.
     <| c_subs := [ (cmd_new w_add)
          <| c_args := [ (mk [110]) <| a_short := Some 110 |> <| a_action := Some ACount |>;
                         (mk [70]) <| a_action := Some AAppend |> <| a_num := Some r_single |> ] |> ] |>.
-  Definition cb : cmd := build_self c0.
+  Definition cb : cmd := build_self (with_bin c0 [112]).
   Definition sub : cmd := match build_subcommand cb w_add with Some s => s | None => cmd_new [] end.
   (** -v -x -v -v add -n a b -n *)
   Definition pre0 : list bytes := [[45;118]; [45;120]; [45;118]; [45;118]].
@@ -319,5 +336,17 @@ Module ChainExamples.
       destruct (level_append sub os1 a1 af HA1 HS1 R1 Hin ltac:(vmr) ltac:(vmr)) as [H _].
       destruct (H ltac:(vm_compute; lia)) as [e [Ge [Re _]]].
       assert (E : a_id af = [70]) by vmr. rewrite E in Ge. rewrite Ge. cbn [option_map]. rewrite Re. vmr.
+  Qed.
+  Example top_hyps : is_set s_no_binary_name c0 = false /\ is_set s_ignore_errors cb = false /\
+    UnparseTree.no_globals (build_recursive (S (S (depth cb))) (with_bin c0 [112])) = true.
+  Proof. split; [|split]; vmr. Qed.
+  Definition mC : matches := match parse_top c0 ([112] :: lineC) with OOk m => m | _ => Matches [] None end.
+  Example top_level : parse_top c0 ([112] :: lineC) = OOk mC /\ Globals.chain mC = [w_add] /\
+    exists a0 a1, Globals.levels mC = [a0; a1] /\ level_form cb os0 a0 /\ level_form sub os1 a1.
+  Proof.
+    assert (HP : parse_top c0 ([112] :: lineC) = OOk mC) by vmr.
+    destruct top_hyps as [H1 [H2 H3]].
+    destruct (chain_levels_top c0 [112] lineC _ mC H1 H2 H3 lineC_cline HP) as [HL HC].
+    split; [exact HP|]. split; [rewrite HC; vmr|]. exact (two_levels _ _ _ _ _ HL).
   Qed.
 End ChainExamples.
